@@ -45,3 +45,23 @@ Proof.
   intros a m v. split; [reflexivity|]. split; [reflexivity|].
   intro H. destruct v; try discriminate; repeat split; reflexivity.
 Qed.
+
+(* what the MODEL does on two JsonDouble leaves: equality of the stored representation.  (The C++
+   compares the double values computed by AsDouble; see prop.py TRUSTED.) *)
+Lemma jv_eqb_dbl : forall n1 f1 l1 r1 e1 n2 f2 l2 r2 e2,
+  jv_eqb (JDbl n1 f1 l1 r1 e1) (JDbl n2 f2 l2 r2 e2) = true <->
+  n1 = n2 /\ f1 = f2 /\ l1 = l2 /\ r1 = r2 /\ e1 = e2.
+Proof.
+  intros. cbn [jv_eqb]. split.
+  - intro H. repeat (apply andb_true_iff in H; destruct H as [H ?]).
+    repeat match goal with
+      | Hx : Bool.eqb _ _ = true |- _ => apply Bool.eqb_prop in Hx
+      | Hx : (_ =? _)%Z = true |- _ => apply Z.eqb_eq in Hx
+      | Hx : (_ =? _) = true |- _ => apply N.eqb_eq in Hx
+      end. subst. repeat split; reflexivity.
+  - intros [-> [-> [-> [-> ->]]]]. rewrite Bool.eqb_reflx, !N.eqb_refl, Z.eqb_refl. reflexivity.
+Qed.
+Lemma jv_eqb_dbl_other : forall n f l r e v,
+  match v with JDbl _ _ _ _ _ => False | _ => True end ->
+  jv_eqb (JDbl n f l r e) v = false /\ jv_eqb v (JDbl n f l r e) = false.
+Proof. intros n f l r e v H. destruct v; try contradiction; split; reflexivity. Qed.
